@@ -252,3 +252,25 @@ Proof. intro P. apply (gndc_cap_order_indep f64 fadd fmul fdiv _ _ n P). Qed.
 Theorem total_any_order caps order : Forall cap_ok caps -> Permutation caps order ->
   total_of order = satsum caps.
 Proof. intros H P. rewrite (total_of_perm caps order H P). apply total_of_sat. exact H. Qed.
+
+(* ---------- the fan-out: a result means every plugin took part ---------- *)
+Lemma call_all_some {A} (rs : list (option A)) l : call_all rs = Some l -> rs = map Some l.
+Proof.
+  revert l; induction rs as [|[a|] t IH]; intros l H; simpl in H; try discriminate.
+  - injection H as <-. reflexivity.
+  - destruct (call_all t) as [l'|] eqn:E; [|discriminate]. injection H as <-. simpl. f_equal. apply IH. reflexivity.
+Qed.
+
+Theorem no_partial_merge (answers : list (option famap)) r :
+  gndc_call answers = Some r -> exists l, answers = map Some l /\ r = gndc_f l.
+Proof.
+  unfold gndc_call. destruct (call_all answers) as [l|] eqn:E; [|discriminate].
+  intro H. injection H as <-. exists l. split; [apply call_all_some; exact E|reflexivity].
+Qed.
+
+Theorem any_error_is_error (answers : list (option famap)) : In None answers -> gndc_call answers = None.
+Proof.
+  unfold gndc_call. intro H. replace (call_all answers) with (@None (list famap)); [reflexivity|].
+  induction answers as [|[a|] t IH]; simpl in *; [tauto| |reflexivity].
+  destruct H as [H|H]; [discriminate|]. rewrite <- (IH H). reflexivity.
+Qed.
